@@ -206,7 +206,9 @@ CLAIMED.update({
          'removed lexicon, leaves every row outside the cascade closure unchanged (up to the SET NULL columns = dependency links of '
          'other lexicons) and raises wn.Error when nothing matches; add keeps every existing row of every table in place (only '
          'pending dependency links may be resolved), keeps references valid, is a no-op for installed lexicons and for extensions '
-         'whose base is missing, and what is skipped depends only on (id, version, extends). Partial: "equals what adding just the '
+         'whose base is missing, and what is skipped depends only on (id, version, extends); adding a new non-extension lexicon and '
+         'then removing it restores every content table exactly (incl. the dependency links of other lexicons; only the shared '
+         'lookup tables keep what was added), after which all hypotheses hold again and the lexicon is offered for adding again. Partial: "equals what adding just the '
          'installed lexicons to an empty database gives" is the composition of these facts with the content theorems of C01 and is '
          'decided as a whole by the history oracle; for specifier lists matching several lexicons exactness is proved per '
          'lexicon. Known finding F3 (tags/pronunciations of extensions survive removal: no owner column).',
@@ -262,11 +264,14 @@ CLAIMED.update({
          'document order, cell by cell; nothing else changes. Capstone (composition): after adding a resource with one new '
          'non-extension lexicon to any consistent database, a Wordnet restricted to it lists through synsets(), words() and '
          'senses() exactly the document\'s synsets, entries and senses in document order with their ids, parts of speech and forms '
-         '(lemma first, then the further forms with id and script), and every sense navigates to the word and synset the document '
-         'names; each hypothesis is shown necessary by a witness, and hypotheses and conclusions are evaluated on databases '
-         'recorded from the implementation. Partial: the capstone covers ids/pos/forms/navigation for a single new lexicon; '
-         'examples, counts, frames, definitions, tags, pronunciations, metadata, extensions in scope and default mode are covered '
-         'row-wise (document -> rows) and by the oracle on the real code, not by a composed theorem. Known finding F3.',
+         '(lemma first, then the further forms with id and script), every sense navigates to the word and synset the document '
+         'names, Word.senses() and Synset.senses() give document order resp. the declared member order, and every sense and synset '
+         'reports the document\'s examples, counts, frames, adjposition, lexicalized flag, first definition, ILI (real or proposed) '
+         'and lexfile; for an extension adding a sense to a base entry the base word lists it; each hypothesis is shown necessary '
+         'by a witness, and hypotheses and conclusions are evaluated on databases recorded from the implementation. Partial: '
+         'tags, pronunciations and all metadata (the bridge drops metadata cells), relations through the API, several new lexicons '
+         'at once and default mode are covered row-wise (document -> rows) and by the oracle on the real code, not by a composed '
+         'theorem. Known finding F3.',
          ADD_TRUST, 'DESIGN.md section 5 C01, Appendix E'),
 })
 
